@@ -223,3 +223,35 @@ claim(
     "table agreements is not decided. Token lists are those the lexer produces.",
     "DESIGN.md section 5 C21",
 )
+
+claim(
+    "C12",
+    "TBL",
+    "static: operator/precedence tables, Pratt-loop shape, comparator operand-order formulas and truthiness discipline on the AST",
+    "Clauses: every binary operator has a precedence and exactly one parse_infix_expression "
+    "branch building its own expression class from (token, left, right operand parsed at that "
+    "precedence); and/or share one precedence below the comparison operators and the Pratt loop "
+    "breaks only on strictly lower precedence (right grouping), parentheses gated by the feature "
+    "flag; each comparison class's evaluate and evaluate_async reduce to the formula its symbol "
+    "means (`>` is _lt(r, l), `<=` is _eq or _lt(l, r), ...); is_truthy is `not (obj is False or "
+    "obj is None)` with undefined false, and every Python-truthiness test on an evaluated "
+    "expression in a node/expression is on a field filled from BooleanExpression.parse; _lt and "
+    "_contains end in LiquidTypeError, booleans excluded before numbers.",
+    "Not decided: the result tables of _eq/_lt/_contains/empty/blank for particular operand values.",
+    "DESIGN.md section 5 C12",
+)
+
+claim(
+    "C16",
+    "TBL",
+    "static: table agreement between Undefined's implicit-protocol methods and the strict subclasses' overrides",
+    "Clause (second sentence of the property): each of Undefined's protocol methods (contains, eq, "
+    "getitem, len, iter, str, int, hash, reversed) and __bool__ is overridden in StrictUndefined by "
+    "a body that only raises UndefinedError; __getattribute__ raises for every name outside "
+    "allowed_properties, which contains no protocol method; Undefined itself never raises and "
+    "returns the empty values; FalsyStrictUndefined relaxes exactly __bool__/__eq__; "
+    "StrictDefaultUndefined only adds force_liquid_default; the context builds missing values only "
+    "through env.undefined(...).",
+    "Not decided: the first sentence (a strict render that succeeds equals the default render).",
+    "DESIGN.md section 5 C16",
+)
